@@ -755,3 +755,30 @@ V("c14-rw-edge-length-indexed-backward", "rewrite", "C14", P + "convex_spheropol
 V("c14-edge-length-indexed-forward", "fault", "C14", P + "convex_spheropolygon.py",
   "        v12norm = np.linalg.norm(v12, axis=1)\n        v32norm = np.linalg.norm(v32, axis=1)\n",
   "        v32norm = np.linalg.norm(v32, axis=1)\n        v12norm = v32norm[(np.arange(num_verts) + 1) % num_verts]\n", rule="RING-1")
+
+# ---- R10: rules that were generalised keep their teeth
+V("c02-tet-bare-determinant", "fault", "C02", P + "polyhedron.py", "        volumes = np.linalg.det(simplices) / 6\n", "        volumes = np.linalg.det(simplices)\n", rule="TET")
+V("c02-rw-tet-determinant-factor-later", "rewrite", "C02", P + "polyhedron.py", "        volumes = np.linalg.det(simplices) / 6\n", "        volumes = np.linalg.det(simplices)\n",
+  more=[("            return np.sum((volumes / 20) * (fv1 + fv2 + fv3 + fvsum))\n", "            return np.sum(volumes * (fv1 + fv2 + fv3 + fvsum)) / 120\n")])
+V("c02-volume-sign-factored-wrong", "fault", "C02", P + "polyhedron.py",
+  "        ds = -self._equations[:, 3]\n        return np.sum(ds * self.get_face_area()) / 3\n",
+  "        return np.sum(self._equations[:, 3] * self.get_face_area()) / 3\n", rule="SIGN-1")
+V("c02-rw-volume-sign-factored-out", "rewrite", "C02", P + "polyhedron.py",
+  "        ds = -self._equations[:, 3]\n        return np.sum(ds * self.get_face_area()) / 3\n",
+  "        return -np.sum(self._equations[:, 3] * self.get_face_area()) / 3\n")
+V("c13-rw-incircle-accept-first", "rewrite", ["C13", "C09"], P + "polygon.py",
+  "        if len(self.vertices) > 3 and not np.isclose(resids, 0):\n            raise RuntimeError(\"No incircle for this polygon.\")\n\n        return Circle(x[3], x[:3])\n",
+  "        if self.num_vertices <= 3 or np.isclose(resids, 0):\n            return Circle(x[3], x[:3])\n\n        raise RuntimeError(\"No incircle for this polygon.\")\n")
+V("c13-incircle-accept-first-off-by-one", "fault", "C13", P + "polygon.py",
+  "        if len(self.vertices) > 3 and not np.isclose(resids, 0):\n            raise RuntimeError(\"No incircle for this polygon.\")\n\n        return Circle(x[3], x[:3])\n",
+  "        if self.num_vertices <= 4 or np.isclose(resids, 0):\n            return Circle(x[3], x[:3])\n\n        raise RuntimeError(\"No incircle for this polygon.\")\n", rule="EX-1")
+V("c17-rw-domain-accept-first", "rewrite", "C17", "coxeter/families/plane_shape_families.py",
+  "        if not 1 <= a <= 3:\n            raise ValueError(\"The a parameter must be between 1 and 3.\")\n        if not 1 <= c <= 3:\n            raise ValueError(\"The c parameter must be between 1 and 3.\")\n        return ConvexPolyhedron(cls.make_vertices(a, 1, c))\n",
+  "        if 1 <= a <= 3:\n            if 1 <= c <= 3:\n                return ConvexPolyhedron(cls.make_vertices(a, 1, c))\n            raise ValueError(\"The c parameter must be between 1 and 3.\")\n        raise ValueError(\"The a parameter must be between 1 and 3.\")\n")
+V("c17-domain-accept-first-open-bound", "fault", "C17", "coxeter/families/plane_shape_families.py",
+  "        if not 1 <= a <= 3:\n            raise ValueError(\"The a parameter must be between 1 and 3.\")\n        if not 1 <= c <= 3:\n            raise ValueError(\"The c parameter must be between 1 and 3.\")\n        return ConvexPolyhedron(cls.make_vertices(a, 1, c))\n",
+  "        if 1 <= a <= 3:\n            if 1 < c <= 3:\n                return ConvexPolyhedron(cls.make_vertices(a, 1, c))\n            raise ValueError(\"The c parameter must be between 1 and 3.\")\n        raise ValueError(\"The a parameter must be between 1 and 3.\")\n", rule="DOM-1")
+V("c07-edges-open-chain-concatenate", "fault", "C07", P + "polyhedron.py",
+  "                for i, j in zip(face, np.roll(face, -1))\n", "                for i, j in zip(face[:-1], face[1:])\n", rule="EDG-1")
+V("c07-rw-edges-wraparound-concatenate", "rewrite", "C07", P + "polyhedron.py",
+  "                for i, j in zip(face, np.roll(face, -1))\n", "                for i, j in zip(face, np.concatenate((face[1:], face[:1])))\n")
